@@ -102,8 +102,38 @@ impl Monitor for C02 {
                         "fctrl-flags"
                     }
                     3 => {
-                        let i = n - 1 - rng.below(4) as usize;
-                        w[i] ^= 1 << rng.below(8);
+                        // one flipped bit; or a pattern over several MIC octets: the same mask in two, three or
+                        // all four of them (differences that cancel under XOR / sum to zero pairwise), the MIC
+                        // inverted, rotated by one octet, reversed, or zeroed
+                        match rng.below(8) {
+                            0 | 1 => {
+                                let i = n - 1 - rng.below(4) as usize;
+                                w[i] ^= 1 << rng.below(8);
+                            }
+                            2 | 3 => {
+                                let m = 1 + rng.below(255) as u8;
+                                let k = 2 + rng.below(3) as usize;
+                                let start = rng.below(4) as usize;
+                                for j in 0..k {
+                                    w[n - 4 + (start + j) % 4] ^= m;
+                                }
+                            }
+                            4 => {
+                                for j in 0..4 {
+                                    w[n - 4 + j] = !w[n - 4 + j];
+                                }
+                            }
+                            5 => w[n - 4..].rotate_left(1),
+                            6 => w[n - 4..].reverse(),
+                            _ => {
+                                let m = 1 + rng.below(255) as u8;
+                                let i = rng.below(4) as usize;
+                                let j = (i + 1 + rng.below(3) as usize) % 4;
+                                w[n - 4 + i] = w[n - 4 + i].wrapping_add(m);
+                                w[n - 4 + j] = w[n - 4 + j].wrapping_sub(m);
+                            }
+                        }
+                        col.event("mic_pattern_mutations");
                         "mic"
                     }
                     4 => {
@@ -617,6 +647,16 @@ fn join_request(idx: u64, rng: &mut Prng, col: &mut Collector) {
     let mut usekey = key;
     match mutation {
         0 => {}
+        1 if rng.chance(1, 3) => {
+            // the same mask in two to four MIC octets, or the MIC inverted
+            let n = w.len();
+            let m = if rng.chance(1, 4) { 0xff } else { 1 + rng.below(255) as u8 };
+            let k = if m == 0xff { 4 } else { 2 + rng.below(3) as usize };
+            let start = rng.below(4) as usize;
+            for j in 0..k {
+                w[n - 4 + (start + j) % 4] ^= m;
+            }
+        }
         1 => {
             let i = rng.below(w.len() as u64) as usize;
             w[i] ^= 1 << rng.below(8);
